@@ -246,6 +246,11 @@ class Profiles:
         macros these are used in one go. Using `addProfile` instead my be
         **very** slow instead.
         """
+        # replace profiles with the same name
+        for profile, properties, macros in profiles:
+            if profile in self._profileNames:
+                self.removeProfile(profile)
+
         # add macros
         for profile, properties, macros in profiles:
             if macros:
@@ -280,6 +285,10 @@ class Profiles:
             predefined basic macros which may always be used in
             ``Profiles._TOKEN_MACROS`` and ``Profiles._MACROS``.
         """
+        if profile in self._profileNames:
+            # replace a profile with the same name
+            self.removeProfile(profile)
+
         if macros:
             # check if known macros would change and if yes reset properties
             if len(set(macros.keys()).intersection(list(self._usedMacros.keys()))):
